@@ -124,7 +124,9 @@ static int LockDepth, LockBad;
 static int AppTag[256];
 
 /* csdo user buffers */
+#if USE_CSDO
 static uint8_t *CsBuf[CO_CSDO_N]; static uint32_t CsLen[CO_CSDO_N];
+#endif
 
 static void hex(const uint8_t *p, size_t n) { for (size_t i = 0; i < n; i++) printf("%02x", p[i]); if (!n) printf("-"); }
 static size_t unhex(const char *s, uint8_t *out, size_t max)
@@ -338,6 +340,7 @@ static uint32_t CbTmrStart; static int CbTmrTag = -1;     /* csdocbtimer: the co
 /* csdocbreq <timeout>: the completion callback requests the next transfer on the same client (chained requests); csdocbemcy: it
  * registers an emergency ("SDO transfer failed") */
 static uint32_t CbReqTmo; static int CbReqRes = -1; static int CbEmcy; static uint8_t CbReqBuf[4];
+#if USE_CSDO
 static void csdo_cb(CO_CSDO *c, uint16_t idx, uint8_t sub, uint32_t code)
 {
     printf("cb csdo %d %x %u %x %u\n", (int)(c - Node->CSdo), idx, sub, code, Tick);
@@ -354,6 +357,7 @@ static void csdo_cb(CO_CSDO *c, uint16_t idx, uint8_t sub, uint32_t code)
         CbTmrTag = -1;
     }
 }
+#endif
 
 /* ------------------------------------------------------------- user type */
 static uint32_t usr_size(CO_OBJ *o, CO_NODE *n, uint32_t w) { (void)n; (void)w; return ((USRO *)o->Data)->size; }
@@ -583,8 +587,12 @@ static void occ(void)
                 if (p == (uint8_t *)&Node->Nmt) k = 0;
                 else if (p >= (uint8_t *)Node->TPdo && p < (uint8_t *)(Node->TPdo + CO_TPDO_N)) k = 1;
                 else if (p == (uint8_t *)&Node->Sync) k = 2;
+#if USE_CSDO
                 else if (p >= (uint8_t *)Node->CSdo && p < (uint8_t *)(Node->CSdo + CO_CSDO_N)) k = 3;
+#endif
+#if USE_LSS
                 else if (p == (uint8_t *)&Node->Lss) k = 4;
+#endif
                 else if (p >= (uint8_t *)AppTag && p < (uint8_t *)(AppTag + 256)) k = 6;
                 else for (int i = 0; i < NOd; i++) if (Od[i].kind == K_HBC && (uint8_t *)Od[i].hbc == p) k = 5;
                 c[k]++;
@@ -603,8 +611,16 @@ static void state(void)
         printf(" sdo%d=%d,%d,%u,%u,%u,%u,%u,%u,%x,%x", n, (int)s->Blk.State, s->Obj != 0, s->Seg.TBit, s->Seg.Size,
                s->Buf.Num, s->Blk.SegCnt, s->Blk.Len, s->Idx, s->RxId, s->TxId);
     }
+#if USE_LSS
     printf(" lss=%u,%u,%u,%u,%u,%d", Node->Lss.Mode, Node->Lss.Step, Node->Lss.Flags, Node->Lss.CfgNodeId, Node->Lss.CfgBaudrate, Node->Lss.Tmr);
+#else
+    printf(" lss=0,0,0,0,0,-1");
+#endif
+#if USE_CSDO
     for (int n = 0; n < CO_CSDO_N; n++) printf(" csdo%d=%d,%d,%d", n, (int)Node->CSdo[n].State, (int)Node->CSdo[n].Tfer.Type, Node->CSdo[n].Tfer.Tmr);
+#else
+    printf(" csdo0=0,0,-1");
+#endif
     printf(" sync=%x,%d,%u emcy=%u,%u,%u\n", Node->Sync.CobId, Node->Sync.Tmr, Node->Sync.Cycle,
            Node->Emcy.Hist.Max, Node->Emcy.Hist.Num, Node->Emcy.Hist.Off);
 }
@@ -680,8 +696,12 @@ int main(void)
             else if (!strcmp(k, "S")) { d->kind = K_STR; size_t n = unhex(ARG(6), tmp, sizeof tmp - 1); tmp[n] = 0;
                 d->storelen = n + 1; d->initbytes = malloc(n + 1); memcpy(d->initbytes, tmp, n + 1);
                 d->str = xalloc(sizeof(CO_OBJ_STR)); d->str->Start = xalloc(n + 1); }
-            else if (!strcmp(k, "M")) { d->kind = K_DOM; size_t sz = U(6); size_t n = unhex(ARG(7), tmp, sizeof tmp);
+            else if (!strcmp(k, "M")) { d->kind = K_DOM; size_t sz = U(6); size_t n = ARG(7)[0] == '@' ? 0 : unhex(ARG(7), tmp, sizeof tmp);
                 d->storelen = sz; d->initbytes = calloc(sz ? sz : 1, 1); memcpy(d->initbytes, tmp, n < sz ? n : sz);
+                if (ARG(7)[0] == '@') {      /* "@<seed>": content by formula (domains too large for a configuration line) */
+                    unsigned long sd = strtoul(ARG(7) + 1, NULL, 0);
+                    for (size_t i = 0; i < sz; i++) d->initbytes[i] = (uint8_t)(i * 167u + (i >> 8) * 13u + sd);
+                }
                 d->dom = xalloc(sizeof(CO_OBJ_DOM)); d->dom->Start = xalloc(sz); d->dom->Size = (uint32_t)sz; }
             else if (!strcmp(k, "H")) { d->kind = K_HBC; d->hb_node = (uint8_t)U(6); d->hb_time = (uint16_t)U(7); d->hbc = xalloc(sizeof(CO_HBCONS)); }
             else if (!strcmp(k, "P")) { d->kind = K_PARA; d->gid = (int)U(6); }
@@ -784,6 +804,9 @@ int main(void)
         } else if (!strcmp(c, "tmrdelete")) { printf("ret %d\n", COTmrDelete(&Node->Tmr, (int16_t)strtol(ARG(1), NULL, 0)));
         } else if (!strcmp(c, "getticks")) { printf("ret %u\n", COTmrGetTicks(&Node->Tmr, (uint16_t)U(1), U(2)));
         } else if (!strcmp(c, "mintime"))  { printf("ret %u\n", COTmrGetMinTime(&Node->Tmr, U(1)));
+#if !USE_CSDO
+        } else if (!strcmp(c, "csdoup") || !strcmp(c, "csdodown")) { printf("ret nocsdo\n");
+#else
         } else if (!strcmp(c, "csdoup")) {  /* csdoup num idx sub size timeout */
             int n = (int)U(1); CO_CSDO *cs = COCSdoFind(Node, (uint8_t)n);
             if (!cs) printf("ret nocsdo\n");
@@ -798,13 +821,16 @@ int main(void)
                    CO_ERR e = COCSdoRequestDownload(cs, CO_DEV(X(2), X(3)), b, (uint32_t)sz, csdo_cb, U(5));
                    if (e == CO_ERR_NONE) { CsBuf[n] = b; CsLen[n] = (uint32_t)sz; }
                    printf("ret %d\n", (int)e); }
+#endif
         } else if (!strcmp(c, "pdotxcb")) { PtxNum = (int)strtol(ARG(1), NULL, 0);
         } else if (!strcmp(c, "appclear")) { PtxNum = -1; CbReqTmo = 0; CbReqRes = -1; CbEmcy = 0; CbTmrTag = -1; HecSub = 0; HccSub = 0; McbAct = 0; RcbAct = 0; RinCb = 0;   /* the scripted application forgets its plans */
         } else if (!strcmp(c, "csdocbreq")) { CbReqTmo = U(1); CbReqRes = -1;
         } else if (!strcmp(c, "csdocbreqres")) { printf("ret %d\n", CbReqRes); CbReqRes = -1;
         } else if (!strcmp(c, "csdocbemcy")) { CbEmcy = 1;
         } else if (!strcmp(c, "csdocbtimer")) { CbTmrStart = U(1); CbTmrTag = (int)U(2) & 255;     /* csdocbtimer start tag */
+#if USE_CSDO
         } else if (!strcmp(c, "csdobuf")) { int n = (int)U(1); printf("ret "); hex(CsBuf[n], CsLen[n]); printf("\n");
+#endif
         } else if (!strcmp(c, "fault")) {   /* fault what k [short] */
             const char *w = ARG(1); int k = (int)U(2);
             if (!strcmp(w, "cansend")) F_cansend = k; else if (!strcmp(w, "canread")) F_canread = k;
